@@ -245,3 +245,103 @@ func ordinal(m map[string]int, k string) string {
 	}
 	return k + "#" + string(rune('0'+m[k]))
 }
+
+// staticCallees returns the module function bodies a body calls (static calls and
+// interface calls resolved to every module method of that name whose receiver implements the interface).
+func (p *Prog) staticCallees(fb *FuncBody, deep bool) []*FuncBody {
+	var out []*FuncBody
+	seen := map[*FuncBody]bool{}
+	add := func(t *FuncBody) {
+		if t != nil && !seen[t] {
+			seen[t] = true
+			out = append(out, t)
+		}
+	}
+	info := fb.Info()
+	for _, call := range callsIn(fb, deep) {
+		fn, ok := callee(info, call).(*types.Func)
+		if !ok {
+			continue
+		}
+		if d := p.DeclOf(fn); d != nil {
+			add(d)
+			continue
+		}
+		sig, _ := fn.Type().(*types.Signature)
+		if sig != nil && sig.Recv() != nil {
+			if iface, ok := sig.Recv().Type().Underlying().(*types.Interface); ok {
+				for _, cand := range p.bodies {
+					if cand.Obj == nil || cand.Obj.Name() != fn.Name() {
+						continue
+					}
+					csig := cand.Obj.Type().(*types.Signature)
+					if csig.Recv() == nil {
+						continue
+					}
+					rt := csig.Recv().Type()
+					if types.Implements(rt, iface) || types.Implements(types.NewPointer(rt), iface) {
+						add(cand)
+					}
+				}
+			}
+		}
+	}
+	// function values referenced (method values / function identifiers passed around)
+	w := inspectBody
+	if deep {
+		w = inspectDeep
+	}
+	w(fb.Body, func(n ast.Node) bool {
+		if id, ok := n.(*ast.Ident); ok {
+			if fn, ok := info.Uses[id].(*types.Func); ok {
+				add(p.DeclOf(fn))
+			}
+		}
+		return true
+	})
+	return out
+}
+
+// ReachableFrom computes the module functions reachable from the roots (literals included), not expanding `stop` functions.
+func (p *Prog) ReachableFrom(roots []*FuncBody, stop func(*FuncBody) bool) map[*FuncBody]bool {
+	seen := map[*FuncBody]bool{}
+	var work []*FuncBody
+	for _, r := range roots {
+		if r != nil && !seen[r] {
+			seen[r] = true
+			work = append(work, r)
+		}
+	}
+	for len(work) > 0 {
+		fb := work[0]
+		work = work[1:]
+		if stop != nil && stop(fb) {
+			continue
+		}
+		for _, t := range p.staticCallees(fb, true) {
+			if !seen[t] {
+				seen[t] = true
+				work = append(work, t)
+			}
+		}
+	}
+	return seen
+}
+
+// spawnSites lists go statements and errgroup.Go calls of a body (literals included).
+func spawnSites(fb *FuncBody) []ast.Node {
+	var out []ast.Node
+	info := fb.Info()
+	inspectDeep(fb.Body, func(n ast.Node) bool {
+		switch x := n.(type) {
+		case *ast.GoStmt:
+			out = append(out, x)
+		case *ast.CallExpr:
+			if isFunc(callee(info, x), "golang.org/x/sync/errgroup", "Group", "Go") {
+				out = append(out, x)
+			}
+		}
+		return true
+	})
+	return out
+}
